@@ -6,8 +6,8 @@ Extracted (ast only):
   * `TicketType.split`: is a zero part rejected?  do split / join build their results with the ticket's own class
     (`type(self)` / `type(left)`) or with the bare `TicketType`?
   * `BigMapType.get`: is `dup` honoured (`if dup: assert self.args[1].is_duplicable()`) as in `MapType.get`?
-  * `BigMapType.update`: do the comprehensions walk `self` (items + removed keys) or `self.items`?  (C15's business; only
-    classified, so that the mirror follows the tree under test)
+  * `BigMapType.update` / `__iter__`: are they the mirrored bodies (update as repaired for C15: comprehensions over
+    `self.items`, `removed_keys` a set)?
   * DUP / DUP n: is `is_duplicable()` asserted by the instruction itself (`BigMapType.duplicate` overrides
     `MichelsonType.duplicate` without the check) — or by `BigMapType.duplicate`?
   * the bodies of TICKET / READ_TICKET / SPLIT_TICKET / JOIN_TICKETS and of MapType.get / update are the mirrored ones.
@@ -107,6 +107,16 @@ MAP_UPDATE = ['prev_val = self.get(key, dup=False)',
               '    items = sorted(self.items + [(key, val)], key=lambda x: x[0])\nelse:\n    items = self.items',
               'return (prev_val, type(self)(items))']
 
+BIGMAP_UPDATE = [
+    'removed_keys = set(self.removed_keys)', 'prev_val = self.get(key, dup=False)',
+    'if prev_val is not None:\n    if val is not None:\n        if any((k == key for k, _ in self.items)):\n'
+    '            items = [(k, v if k != key else val) for k, v in self.items]\n        else:\n'
+    '            items = sorted(self.items + [(key, val)], key=lambda x: x[0])\n    else:\n'
+    '        items = [(k, v) for k, v in self.items if k != key]\n        removed_keys.add(key)\nelif val is not None:\n'
+    '    items = sorted(self.items + [(key, val)], key=lambda x: x[0])\n    if key in removed_keys:\n        removed_keys.remove(key)\n'
+    'else:\n    items = self.items',
+    'res = type(self)(items=items, ptr=self.ptr, removed_keys=list(removed_keys))', 'res.context = self.context', 'return (prev_val, res)']
+
 TICKET_INSTR = {
     'JoinTicketsInstruction': [
         'pair = cast(PairType, stack.pop1())', 'pair.assert_type_in(PairType)', 'left, right = tuple(pair)',
@@ -184,15 +194,13 @@ def gen(status):
     out.append('/-- does `BigMapType.get` assert the value type is duplicable when `dup` (as `MapType.get` does)? -/')
     out.append(f'def bigMapGetHonoursDup : Option Bool := {_opt_bool(honours)}')
     u = find_func(bm, 'update')
-    walks = None
-    if u is not None:
-        srcs = {ast.unparse(gen_.iter) for n in ast.walk(u) if isinstance(n, (ast.ListComp, ast.GeneratorExp)) for gen_ in n.generators}
-        calls_get = any(ast.unparse(n) == 'self.get(key, dup=False)' for n in ast.walk(u))
-        if calls_get and srcs and srcs <= {'self', 'self.items'}:
-            walks = 'self' in srcs
-    status['BigMapType.update loops'] = (walks is not None, f'walks removed keys too={walks}' if walks is not None else 'unrecognised')
-    out.append('/-- do the comprehensions of `BigMapType.update` walk `self` (items and removed keys) instead of `self.items`? -/')
-    out.append(f'def bigMapUpdateWalksRemoved : Option Bool := {_opt_bool(walks)}')
+    upd_ok = u is not None and _body(u) == BIGMAP_UPDATE
+    status['BigMapType.update body'] = (upd_ok, 'recognised (walks self.items; removed_keys kept as a set)' if upd_ok else 'unrecognised: ' + (ast.unparse(u)[:600] if u else 'missing'))
+    it = find_func(bm, '__iter__')
+    iter_ok = it is not None and _body(it) == ['yield from iter(self.items)', 'for key in self.removed_keys:\n    yield (key, None)']
+    status['BigMapType.__iter__ body'] = (iter_ok, 'recognised' if iter_ok else 'unrecognised')
+    out.append('/-- are `BigMapType.update` (the C15-repaired shape: comprehensions over `self.items`) and `__iter__` the mirrored bodies? -/')
+    out.append(f'def bigMapUpdateRecognised : Bool := {str(upd_ok and iter_ok).lower()}')
     d = find_func(bm, 'duplicate')
     bm_dup_asserts = d is not None and any(isinstance(s, ast.Assert) and 'is_duplicable()' in ast.unparse(s.test) for s in d.body)
 
